@@ -48,7 +48,7 @@ Lemma rae_kafka_local : forall k s, is_kafka k = true -> stopping s = false -> d
 Proof.
   intros k s Hk Hs Hdc. ds s. cbn in Hs, Hdc. subst stp.
   destruct k; try discriminate; destruct grp; destruct dc0 as [|i|]; try congruence;
-    cbv [rejoin_after_error resched schedule_rejoin new_timer on_group_leave seq emit upd doc_delay fst snd
+    cbv [rejoin_after_error resched schedule_rejoin new_timer on_group_leave seq emit upd doc_delay fst snd set_escaped
          stopping rejoin_needed dc timers next_timer start_d consumers is_group set_consumers set_member
          set_rejoin_needed set_dc set_timers set_next_timer app];
     (split; [reflexivity|split; [reflexivity|split; [reflexivity|split; [|split]]]]).
@@ -178,7 +178,7 @@ Lemma lookup_failure_retried : forall s rid r g rest, take_first (awaits (GLooku
 Proof.
   intros s rid r g rest T R. unfold on_lookup, with_gen. rewrite T.
   destruct r as [| |k]; [discriminate| |destruct k; try discriminate];
-    ds s; cbv [coord_retry new_timer gen_end seq upd fst snd lookup_delay next_timer timers set_gens set_timers set_next_timer set_rejoin_d app];
+    ds s; cbv [coord_retry new_timer gen_end seq upd fst snd set_escaped lookup_delay next_timer timers set_gens set_timers set_next_timer set_rejoin_d app];
     (split; [reflexivity|left; reflexivity]).
 Qed.
 
